@@ -46,6 +46,8 @@ type Session struct {
 	SlowStop bool   `json:"slow_stop,omitempty"` // the sources' Stop() takes a moment (widens the window for concurrent closers)
 	Early    bool   `json:"early,omitempty"`     // no steps: CloseHijackedConnections races with the set-up of the connection
 	IDSet    int    `json:"id_set,omitempty"`    // how operation ids are spelled on the wire (ids.go: idSetNames)
+	Offer    int    `json:"offer,omitempty"`     // which sub-protocols the client offers (multi.go: offers); the session is driven by the negotiated one
+	Peers    []Session `json:"peers,omitempty"`  // further connections open on the same API at the same time; all are ended by ONE CloseHijackedConnections
 	Gomax    int    `json:"-"`
 }
 
@@ -80,6 +82,12 @@ func (s Session) String() string {
 	ids := ""
 	if s.IDSet != 0 {
 		ids = ",ids:" + idSetNames[s.IDSet%len(idSetNames)]
+	}
+	if s.Offer != 0 {
+		ids += fmt.Sprintf(",offer:%v", offers(s.Proto, s.Offer))
+	}
+	for _, q := range s.Peers {
+		ids += " ‖ " + q.String()
 	}
 	return fmt.Sprintf("%s[%s]→%s%s%s", s.Proto, strings.Join(parts, " "), s.Ending, aw, ids)
 }
@@ -121,6 +129,7 @@ type Observed struct {
 	Anomalies []string       `json:"anomalies,omitempty"` // things the player itself found wrong while playing
 	Ending    string         `json:"ending"`              // await cclose drop sclose
 	IDs       map[int]string `json:"ids,omitempty"`       // the id strings this session sent, by index
+	Proto     string         `json:"proto,omitempty"`     // the negotiated sub-protocol (ws | tws), by which the session was driven
 	Inputs    []Input        `json:"-"`
 	Elapsed   time.Duration  `json:"-"`
 	WireTime  time.Duration  `json:"-"`
@@ -174,7 +183,7 @@ type world struct {
 	api *apifu.API
 	ts  *httptest.Server
 	url string
-	cur atomic.Pointer[live]
+	lives sync.Map // connection key → *live (key 0 unless several connections are open at once)
 }
 
 func intArg(ctx graphql.FieldContext, name string) int {
@@ -189,14 +198,26 @@ func intArg(ctx graphql.FieldContext, name string) int {
 	return -1
 }
 
+type connKeyT struct{}
+
+// liveFor finds the recording state of the connection a resolver runs for (the key travels in the
+// request context of the upgrade request, which api-fu keeps as the value context of the connection).
+func (w *world) liveFor(ctx context.Context) *live {
+	k, _ := ctx.Value(connKeyT{}).(int)
+	if l, ok := w.lives.Load(k); ok {
+		return l.(*live)
+	}
+	return nil
+}
+
 func newWorld() *world {
 	w := &world{}
 	cfg := &apifu.Config{}
 	lg := logrus.New()
 	lg.SetOutput(io.Discard)
 	cfg.Logger = lg
-	record := func(gen int, kind string) {
-		if l := w.cur.Load(); l != nil {
+	record := func(ctx graphql.FieldContext, gen int, kind string) {
+		if l := w.liveFor(ctx.Context); l != nil {
 			l.mu.Lock()
 			l.execs = append(l.execs, ExecRec{gen, kind})
 			l.mu.Unlock()
@@ -206,13 +227,13 @@ func newWorld() *world {
 	cfg.AddQueryField("q", &graphql.FieldDefinition{Type: graphql.IntType, Arguments: tagArg,
 		Resolve: func(ctx graphql.FieldContext) (interface{}, error) {
 			t := intArg(ctx, "tag")
-			record(t, "query")
+			record(ctx, t, "query")
 			return t, nil
 		}})
 	cfg.AddMutation("m", &graphql.FieldDefinition{Type: graphql.IntType, Arguments: tagArg,
 		Resolve: func(ctx graphql.FieldContext) (interface{}, error) {
 			t := intArg(ctx, "tag")
-			record(t, "mutation")
+			record(ctx, t, "mutation")
 			return t, nil
 		}})
 	cfg.AddSubscription("s", &graphql.FieldDefinition{Type: graphql.IntType,
@@ -221,11 +242,11 @@ func newWorld() *world {
 			if ctx.IsSubscribe {
 				t := intArg(ctx, "tag")
 				if f, _ := ctx.Arguments["fail"].(bool); f {
-					record(t, "subfail")
+					record(ctx, t, "subfail")
 					return nil, fmt.Errorf("subfail%d", t)
 				}
 				src := &source{gen: t, ch: make(chan int), stoppedCh: make(chan struct{})}
-				if l := w.cur.Load(); l != nil {
+				if l := w.liveFor(ctx.Context); l != nil {
 					l.mu.Lock()
 					src.slow = l.slow
 					l.sources[t] = src
@@ -246,7 +267,7 @@ func newWorld() *world {
 			if ctx.IsSubscribe {
 				t := intArg(ctx, "tag")
 				src := &source{gen: t, ch: make(chan int), stoppedCh: make(chan struct{})}
-				if l := w.cur.Load(); l != nil {
+				if l := w.liveFor(ctx.Context); l != nil {
 					l.mu.Lock()
 					src.slow = l.slow
 					l.sources[t] = src
@@ -274,7 +295,10 @@ func newWorld() *world {
 		panic(err)
 	}
 	w.api = api
-	w.ts = httptest.NewServer(http.HandlerFunc(api.ServeGraphQLWS))
+	w.ts = httptest.NewServer(http.HandlerFunc(func(rw http.ResponseWriter, r *http.Request) {
+		k, _ := strconv.Atoi(r.URL.Query().Get("conn"))
+		api.ServeGraphQLWS(rw, r.WithContext(context.WithValue(r.Context(), connKeyT{}, k)))
+	}))
 	w.url = "ws" + strings.TrimPrefix(w.ts.URL, "http")
 	return w
 }
@@ -501,6 +525,8 @@ type player struct {
 	deadline time.Duration
 	stats    map[string]int
 	ids      *idCodec
+	k        int    // connection key
+	grp      *group // non-nil: one of several connections open on the same API
 	barrier  map[int]bool // id → a duplicate subscription start for it is in flight without a barrier
 	probeNo  int
 	dead     bool // a wait timed out already: do not wait at full length again in this session
@@ -905,22 +931,29 @@ func (p *player) finish(ending string, closeSent bool) {
 			p.anom = append(p.anom, "the server did not close the connection")
 		}
 	case "sclose":
-		done := make(chan struct{})
-		go func() { p.w.api.CloseHijackedConnections(); close(done) }()
+		if p.grp != nil {
+			p.grp.arrive(p.k) // every connection of the group has played its steps before the ONE close
+		}
 		p.patient = true
 		p.resume()
-		if !p.waitFor("CloseHijackedConnections to return", func() bool {
-			select {
-			case <-done:
-				return true
-			default:
-				return false
+		if p.grp == nil || p.k == 0 {
+			done := make(chan struct{})
+			go func() { p.w.api.CloseHijackedConnections(); close(done) }()
+			if !p.waitFor("CloseHijackedConnections to return", func() bool {
+				select {
+				case <-done:
+					return true
+				default:
+					return false
+				}
+			}) {
+				p.anom = append(p.anom, "CloseHijackedConnections did not return")
 			}
-		}) {
-			p.anom = append(p.anom, "CloseHijackedConnections did not return")
 		}
 		p.patient = false
-		p.waitFor("the server to close the connection", readerDone)
+		if !p.waitFor("the server to close the connection", readerDone) {
+			p.anom = append(p.anom, "the connection was registered but CloseHijackedConnections has not closed it")
+		}
 	case "drop":
 		p.conn.UnderlyingConn().Close()
 		p.resume()
@@ -967,35 +1000,68 @@ func (p *player) playEarly() {
 }
 
 func runSession(w *world, sess Session, deadline time.Duration) *Observed {
+	if len(sess.Peers) > 0 {
+		return runGroup(w, sess, deadline)
+	}
+	return runConn(w, sess, deadline, 0, nil)
+}
+
+// runConn plays one connection. k is its key on the world; grp is non-nil when it is one of several
+// connections open on the same API at the same time.
+func runConn(w *world, sess Session, deadline time.Duration, k int, grp *group) *Observed {
 	t0 := time.Now()
 	l := &live{sources: map[int]*source{}, slow: sess.SlowStop}
-	w.cur.Store(l)
+	w.lives.Store(k, l)
+	defer w.lives.Delete(k)
 	ids := newIDCodec(sess.IDSet)
-	p := &player{w: w, sess: sess, l: l, ids: ids, sp: newSpec(sess.Proto), deadline: deadline, stats: map[string]int{}, barrier: map[int]bool{}}
-	obs := &Observed{Stops: map[int]int{}, Stats: p.stats}
-	sub := "graphql-ws"
-	if sess.Proto == "tws" {
-		sub = "graphql-transport-ws"
-	}
-	d := &websocket.Dialer{Subprotocols: []string{sub}, HandshakeTimeout: 10 * time.Second}
+	offered := offers(sess.Proto, sess.Offer)
+	d := &websocket.Dialer{Subprotocols: offered, HandshakeTimeout: 10 * time.Second}
 	var conn *websocket.Conn
 	var err error
 	for attempt := 0; attempt < 50; attempt++ {
-		conn, _, err = d.Dial(w.url, nil)
+		conn, _, err = d.Dial(fmt.Sprintf("%s?conn=%d", w.url, k), nil)
 		if err == nil {
 			break
 		}
 		time.Sleep(20 * time.Millisecond)
 	}
-	if err != nil {
-		obs.Anomalies = []string{"harness: cannot dial: " + err.Error()}
+	// the session is driven by the sub-protocol the handshake NEGOTIATED, whatever was offered
+	negotiated := ""
+	if conn != nil {
+		switch conn.Subprotocol() {
+		case "graphql-ws":
+			negotiated = "ws"
+		case "graphql-transport-ws":
+			negotiated = "tws"
+		}
+	}
+	if negotiated != "" {
+		sess.Proto = negotiated
+	}
+	p := &player{w: w, sess: sess, l: l, ids: ids, k: k, grp: grp, sp: newSpec(sess.Proto), deadline: deadline, stats: map[string]int{}, barrier: map[int]bool{}}
+	obs := &Observed{Stops: map[int]int{}, Stats: p.stats, Proto: sess.Proto}
+	if err != nil || negotiated == "" {
+		if grp != nil {
+			grp.dialed(k)
+			grp.arrive(k)
+		}
+		if err != nil {
+			obs.Anomalies = []string{"harness: cannot dial: " + err.Error()}
+		} else {
+			obs.Anomalies = []string{fmt.Sprintf("harness: the handshake negotiated sub-protocol %q for the offer %q", conn.Subprotocol(), offered)}
+			conn.Close()
+		}
 		obs.Spec = p.sp
 		return obs
 	}
+	p.stats["offer:"+fmt.Sprint(sess.Offer)+"→"+negotiated]++
 	p.conn = conn
 	if !sess.Early {
 		// the history starts once the connection is established on the server side (registered and served)
-		p.waitFor("the connection to be registered", func() bool { return registryLen(w.api) != 0 })
+		p.waitFor("the connection to be registered", func() bool { n := registryLen(w.api); return n < 0 || n >= k+1 })
+	}
+	if grp != nil {
+		grp.dialed(k)
 	}
 	go func() {
 		for {
